@@ -9,7 +9,7 @@ if REPO not in sys.path:
 os.environ.setdefault('MPLBACKEND', 'Agg')
 
 import numpy as np
-from .api import PathAbort, OutOfDomain, Raised, load_contracts, is_engine_exc
+from .api import PathAbort, OutOfDomain, Raised, load_contracts, is_engine_exc, raised_in_repo
 from .flat import flatten, sig_str
 
 EPS = 2.0 ** -52
@@ -324,6 +324,10 @@ def run_contract(cid, cfg, values, rng=None):
     except Exception as e:
         if ck.failed:
             out['status'] = 'aborted-after-failed-clause'      # e.g. indexing a result whose length clause already failed
+        elif raised_in_repo(e, os.environ.get('PV_REPO', '/repo')):
+            # library code called by the contract body outside ck.call raised: the implicit clause setup:noraise fails
+            ck._fail('setup:noraise', 'raised %s: %s' % (type(e).__name__, str(e)[:200]))
+            out['status'] = 'aborted-after-failed-call'
         else:
             out['status'] = 'contract-error'
             out['detail'] = traceback.format_exc()[-1500:]
